@@ -149,6 +149,7 @@ package agent
 //@ note C04: the stream writer of the exit, forward, shell and file handlers adds nothing of its own: each frame carries an empty payload or a piece of the caller's (already sealed) data
 //@ at[C04] call SendToPeer#0 assert len($2.Payload) == 0
 //@ at[C04] call SendToPeer#1 assert base($2.Payload) == base(data) && offset(data) <= offset($2.Payload) && offset($2.Payload) + len($2.Payload) <= offset(data) + len(data)
+//@ loop 0 invariant len(data) <= 16384 ==> offset == 0 || offset == len(data)
 
 // forwardShellClientData (API client -> remote shell): every message popped
 // from the adapter is passed through shell.SplitMessage with the one-frame
